@@ -20,6 +20,9 @@ def run(rep):
     c14.m4(rep, w)      # a snippet whose import fails to load/compile leaves no half-registered module behind
     c14.m4b(rep, w)
     n5(rep, w)
+    n6(rep, w)
+    import c09
+    c09.f5(rep, w)     # a fiber killed by a failed run is reported as finished by later snippets
 
 
 def vm_field_writes(w, f):
@@ -265,3 +268,36 @@ def n5(rep, w):
     for fld, who in sorted(fields.items()):
         r.check(fld in COMPILE_MAY_WRITE, 'Vm.%s written under compile() (%s)' % (fld, COMPILE_MAY_WRITE.get(fld, '')),
                 'compile() can write Vm.%s (in %s): a snippet that fails to compile leaves that state changed for the snippets that follow' % (fld, sorted(who)[:3]))
+
+
+def n6(rep, w):
+    """reset() empties *main*'s globals: the table it clears must be the one of the module it has just looked up as "main", not of
+    whatever module happened to be active when the last run died (an uncaught error inside an imported module's function leaves that
+    module active)"""
+    from c16 import operand_fields as _of
+    r = rep.rule('N6', 'reset() clears the globals of the module it obtains as "main" (not of the module that was active when the last run ended)', floor=1)
+    f = w.require_fn(VM + 'reset', 'C15')
+    org = origins(f)
+    dom = f.dominators()
+    set_active = []
+    for bi in f.normal_blocks():
+        for s_ in f.blocks[bi]['s']:
+            d = s_.get('d') or {}
+            if d.get('p') and isinstance(d['p'][-1], dict) and d['p'][-1].get('n') == 'active_module':
+                pl = op_place(s_['r'].get('o', {}) or {})
+                if pl is not None and any(q[0][0] == 'call' and q[0][2] == VM + 'module' for q in org.get(pl['l'], ())):
+                    set_active.append(bi)
+    clears = []
+    for bi in f.normal_blocks():
+        for s_ in f.blocks[bi]['s']:
+            d = s_.get('d') or {}
+            if d.get('p') and isinstance(d['p'][-1], dict) and d['p'][-1].get('n') == 'attributes':
+                roots = {q[0] for q in org.get(d['l'], ())}
+                direct = any(x[0] == 'call' and x[2] == VM + 'module' for x in roots)
+                via_active = 'active_module' in {tk for q in org.get(d['l'], ()) for tk in q[1:]}
+                clears.append((bi, direct, via_active))
+    if not clears:
+        raise Broken('C15', 'anchor', 'reset(): the store that empties the globals was not found')
+    ok = all(direct or (via and any(sb in dom.get(bi, ()) for sb in set_active)) for (bi, direct, via) in clears)
+    r.check(ok, 'reset(): active_module = module("main") before its attributes are replaced', 'reset() replaces the attributes of the active module without first making "main" the active '
+            'module: after a run that died inside an imported module, main keeps all its globals and the imported module loses its own', f.loc())
